@@ -1,11 +1,13 @@
 package main
 
 import (
+	"context"
 	"fmt"
 	"go/types"
 	"math/big"
 	"sort"
 	"strings"
+	"time"
 
 	"golang.org/x/tools/go/ssa"
 )
@@ -133,8 +135,8 @@ func (ex *Exec) applyContract(s *State, fr *Frame, c *ssa.Call, f *ssa.Function,
 		if label == "" {
 			label = fmt.Sprintf("requires#%d", i+1)
 		}
-		g := env.evalBool(r.Expr)
-		ex.check(s, "requires", fmt.Sprintf("%s/%s/call:%s@%s/%s", ex.layer, caller, name, ex.prog.Pos(c.Pos()), label), g, c.Pos(), r.Src)
+		g := env.evalProve(r.Expr)
+		ex.check(s, "requires", fmt.Sprintf("%s/%s/call:%s@%s/%s", ex.layer, caller, name, ex.prog.SrcAnchor(c.Pos()), label), g, c.Pos(), r.Src)
 	}
 	// havoc
 	var hv []string
@@ -147,6 +149,16 @@ func (ex *Exec) applyContract(s *State, fr *Frame, c *ssa.Call, f *ssa.Function,
 		sort.Strings(hv)
 	}
 	for _, h := range hv {
+		if strings.HasPrefix(h, "*") {
+			// assigns *p: exactly the location the pointer argument designates
+			pv, ok := vars[h[1:]].(PtrV)
+			if !ok {
+				ex.unsupported("assigns %s: not a pointer parameter of %s", h, name)
+			}
+			ex.noteAssigned(pv)
+			ex.storeVal(s, pv, ex.fresh(s, "havoc."+h[1:], ex.subst(pv.Elem)), pv.Elem)
+			continue
+		}
 		sortS := ex.heapSorts[h]
 		if sortS == "" {
 			// ensure the array exists so that old() and the frame can talk about it
@@ -155,7 +167,13 @@ func (ex *Exec) applyContract(s *State, fr *Frame, c *ssa.Call, f *ssa.Function,
 		ex.assignedHeaps[h] = true
 		s.setH(h, ex.st.Fresh("H."+h+".call", sortS))
 	}
-	if len(hv) > 0 {
+	wholeArrays := false
+	for _, h := range hv {
+		if !strings.HasPrefix(h, "*") {
+			wholeArrays = true
+		}
+	}
+	if wholeArrays {
 		// allocation is monotone
 		oldAl := pre.H(ex, "alloc", ArrSort(SRef, SBool))
 		newAl := ex.st.Fresh("H.alloc.call", ArrSort(SRef, SBool))
@@ -174,8 +192,42 @@ func (ex *Exec) applyContract(s *State, fr *Frame, c *ssa.Call, f *ssa.Function,
 		results = append(results, ex.fresh(s, "ret."+f.Name(), ex.subst(sig.Results().At(i).Type())))
 	}
 	post := &SpecEnv{ex: ex, cur: s, old: pre, vars: vars, results: results, fn: f, calleeMode: true, assigned: hv}
+	// frame facts for the simplifier: arrays havocked by this call agree with their
+	// pre-call versions outside the objects named in a frame(...) conjunct
 	for _, e := range ct.Ensures {
-		s.assume(post.evalBool(e.Expr))
+		if fargs, ok := frameArgs(e.Expr); ok {
+			var except []string
+			good := true
+			for _, a := range fargs {
+				for _, env := range []*SpecEnv{{ex: ex, cur: pre, old: pre, vars: vars, fn: f, calleeMode: true}, post} {
+					func() {
+						defer func() {
+							if recover() != nil {
+								good = false
+							}
+						}()
+						except = append(except, env.refTerm(env.eval(a), a).S)
+					}()
+				}
+			}
+			if good {
+				s.serial++
+				for _, h := range hv {
+					if strings.HasPrefix(h, "*") || h == "alloc" || h == "atype" {
+						continue
+					}
+					if srt := ex.heapSorts[h]; srt != "" && indexSort(srt) == SRef {
+						if before, ok := pre.heap[h]; ok {
+							s.addFrame(s.heap[h].S, &frameInfo{old: before, except: except, serial: s.serial})
+						}
+					}
+				}
+			}
+			break
+		}
+	}
+	for _, e := range ct.Ensures {
+		s.assume(post.evalAssume(e.Expr))
 	}
 	var v Value
 	switch len(results) {
@@ -241,7 +293,7 @@ func (ex *Exec) builtin(s *State, fr *Frame, c *ssa.Call, name string, args []Va
 		ex.check(s, "safety", ex.obName(fr, "unsafe.Slice", c), ICmp("<=", IntC(0), n), c.Pos(), "unsafe.Slice: length non-negative")
 		if ex.opts["extent"] == "on" {
 			bl := s.H(ex, "blen", ArrSort(SRef, SInt))
-			ex.emit(s, "extent", fmt.Sprintf("extent/%s/unsafe.Slice@%s", normName(fr.fn.RelString(ex.prog.SSA.Pkg)), ex.prog.Pos(c.Pos())), Or(Eq(n, IntC(0)), ICmp("<=", IAdd(p.Idx, n), Select(bl, p.Obj))), c.Pos(), "unsafe.Slice stays inside the allocation of its base pointer")
+			ex.emit(s, "extent", fmt.Sprintf("extent/%s/unsafe.Slice@%s", normName(fr.fn.RelString(ex.prog.SSA.Pkg)), ex.prog.SrcAnchor(c.Pos())), Or(Eq(n, IntC(0)), ICmp("<=", IAdd(p.Idx, n), Select(bl, p.Obj))), c.Pos(), "unsafe.Slice stays inside the allocation of its base pointer")
 		}
 		return SliceV{Kind: SlBytes, Obj: p.Obj, Off: p.Idx, Len: n, Cap: n, Elem: types.Typ[types.Uint8]}
 	case "SliceData":
@@ -376,28 +428,63 @@ func (ex *Exec) sliceElem(s *State, sl SliceV, i Term) Value {
 
 // copyOp: copy(dst, src) with constant-bounded element counts is expanded;
 // otherwise a quantified memmove on the byte heap.
+// provablyConst asks the solver whether t equals the constant k on the current path
+// (used to turn guarded element-wise copies into plain stores).
+func (ex *Exec) provablyConst(s *State, t Term, k int64) bool {
+	if c, ok := t.IntConst(); ok {
+		return c.Int64() == k
+	}
+	o := &Obligation{Name: "aux/const", Assume: s.pc[:len(s.pc):len(s.pc)], Goal: Eq(t, IntC(k))}
+	res, _, _ := runSolver(context.Background(), "z3-new", o.Query(ex.st), 2*time.Second, false)
+	return res == "unsat"
+}
+
 func (ex *Exec) copyOp(s *State, fr *Frame, c *ssa.Call, args []Value) Value {
 	dst, src := args[0].(SliceV), args[1].(SliceV)
 	lt := ICmp("<", dst.Len, src.Len)
 	n := Ite(lt, dst.Len, src.Len)
+	if _, isC := n.IntConst(); !isC {
+		if mx := ex.sliceUpper(dst, src); mx >= 0 && ex.provablyConst(s, n, int64(mx)) {
+			n = IntC(int64(mx))
+		}
+	}
+	nameRow := func(t Term) Term {
+		if len(t.S) < 60 {
+			return t
+		}
+		c := ex.st.Fresh("row", t.Sort)
+		s.assume(Eq(c, t))
+		return c
+	}
+	guard := func(jj Term) Term {
+		if c, ok := n.IntConst(); ok {
+			if k, ok2 := jj.IntConst(); ok2 {
+				return boolT(k.Cmp(c) < 0)
+			}
+		}
+		return ICmp("<", jj, n)
+	}
 	if dst.Kind == SlSlots && (src.Kind == SlSlots) {
-		// bounded by the array sizes (<= 256): expand over the maximal constant length
-		maxN := ex.constUpper(dst.Len, src.Len)
+		// bounded by the array sizes (<= 256): element-wise, memmove semantics (all sources are
+		// read from the row as it was before the copy)
+		maxN := ex.sliceUpper(dst, src)
 		if maxN < 0 {
 			ex.unsupported("copy of nodeRef slices with unbounded length")
 		}
 		sp := s.H(ex, "SP", ex.spSort())
 		stt := s.H(ex, "ST", ex.stSort())
-		// memmove semantics: read all sources first
-		srcP := Select(sp, src.Obj)
-		srcT := Select(stt, src.Obj)
-		dP := Select(sp, dst.Obj)
-		dT := Select(stt, dst.Obj)
+		srcP, srcT := nameRow(s.sel(sp, src.Obj)), nameRow(s.sel(stt, src.Obj))
+		dP0, dT0 := nameRow(s.sel(sp, dst.Obj)), nameRow(s.sel(stt, dst.Obj))
+		dP, dT := dP0, dT0
 		for j := 0; j < maxN; j++ {
 			jj := IntC(int64(j))
-			g := ICmp("<", jj, n)
-			dP = Ite(g, Store(dP, IAdd(dst.Off, jj), Select(srcP, IAdd(src.Off, jj))), dP)
-			dT = Ite(g, Store(dT, IAdd(dst.Off, jj), Select(srcT, IAdd(src.Off, jj))), dT)
+			g := guard(jj)
+			if g.IsFalse() {
+				break
+			}
+			di := IAdd(dst.Off, jj)
+			dP = Store(dP, di, Ite(g, Select(srcP, IAdd(src.Off, jj)), Select(dP0, di)))
+			dT = Store(dT, di, Ite(g, Select(srcT, IAdd(src.Off, jj)), Select(dT0, di)))
 		}
 		s.setH("SP", Store(sp, dst.Obj, dP))
 		s.setH("ST", Store(stt, dst.Obj, dT))
@@ -406,21 +493,26 @@ func (ex *Exec) copyOp(s *State, fr *Frame, c *ssa.Call, args []Value) Value {
 	}
 	if dst.Kind == SlBytes && src.Kind == SlBytes {
 		b := s.H(ex, "B", ex.bSort())
-		maxN := ex.constUpper(dst.Len, src.Len)
-		srcA := Select(b, src.Obj)
-		dA := Select(b, dst.Obj)
+		maxN := ex.sliceUpper(dst, src)
+		srcA := nameRow(s.sel(b, src.Obj))
+		dA0 := nameRow(s.sel(b, dst.Obj))
 		if maxN >= 0 && maxN <= 64 {
+			dA := dA0
 			for j := 0; j < maxN; j++ {
 				jj := IntC(int64(j))
-				g := ICmp("<", jj, n)
-				dA = Ite(g, Store(dA, IAdd(dst.Off, jj), Select(srcA, IAdd(src.Off, jj))), dA)
+				g := guard(jj)
+				if g.IsFalse() {
+					break
+				}
+				di := IAdd(dst.Off, jj)
+				dA = Store(dA, di, Ite(g, Select(srcA, IAdd(src.Off, jj)), Select(dA0, di)))
 			}
 			s.setH("B", Store(b, dst.Obj, dA))
 		} else {
 			na := ex.st.Fresh("memmove", ArrSort(SInt, ex.byteSort()))
 			i := Term{"mm!i", SInt}
 			inW := And(ICmp("<=", dst.Off, i), ICmp("<", i, IAdd(dst.Off, n)))
-			body := Eq(Select(na, i), Ite(inW, Select(srcA, IAdd(src.Off, ISub(i, dst.Off))), Select(dA, i)))
+			body := Eq(Select(na, i), Ite(inW, Select(srcA, IAdd(src.Off, ISub(i, dst.Off))), Select(dA0, i)))
 			s.assume(Term{"(forall ((mm!i Int)) (! " + body.S + " :pattern (" + Select(na, i).S + ")))", SBool})
 			s.setH("B", Store(b, dst.Obj, na))
 		}
@@ -439,6 +531,17 @@ func (ex *Exec) constUpper(a, b Term) int {
 			if best < 0 || int(c.Int64()) < best {
 				best = int(c.Int64())
 			}
+		}
+	}
+	return best
+}
+
+// sliceUpper: static upper bound of min(len(dst), len(src)), or -1.
+func (ex *Exec) sliceUpper(dst, src SliceV) int {
+	best := ex.constUpper(dst.Len, src.Len)
+	for _, m := range []int{dst.MaxLen, src.MaxLen} {
+		if m > 0 && (best < 0 || m < best) {
+			best = m
 		}
 	}
 	return best
@@ -692,7 +795,7 @@ func (ex *Exec) poolPut(s *State, fr *Frame, c *ssa.Call, args []Value) {
 	rv := iv.Val.(RefV)
 	names := []string{"node4", "node16", "node48", "node256"}
 	caller := normName(fr.fn.RelString(ex.prog.SSA.Pkg))
-	site := fmt.Sprintf("%s/put@%s", caller, ex.prog.Pos(c.Pos()))
+	site := fmt.Sprintf("%s/put@%s", caller, ex.prog.SrcAnchor(c.Pos()))
 	if kind < 0 || kind > 3 || baseTypeName(iv.Dyn) != names[kind] {
 		ex.emit(s, "pool", "B/"+site+"/put_kind", False, c.Pos(), "node returned to the pool of its own class")
 		return
@@ -730,7 +833,7 @@ func (ex *Exec) abstractCall(s *State, fr *Frame, c *ssa.Call, fv FuncV, args []
 			stopped = BoolV{T: False}
 		}
 		caller := normName(fr.fn.RelString(ex.prog.SSA.Pkg))
-		ex.emit(s, "protocol", fmt.Sprintf("D/%s/protocol/no_call_after_false@%s", caller, ex.prog.Pos(c.Pos())), Not(stopped.T), c.Pos(), "yield is not called again after it returned false")
+		ex.emit(s, "protocol", fmt.Sprintf("D/%s/protocol/no_call_after_false@%s", caller, ex.prog.SrcAnchor(c.Pos())), Not(stopped.T), c.Pos(), "yield is not called again after it returned false")
 		r := ex.st.Fresh("yield.ret", SBool)
 		s.ghost["stopped"] = BoolV{T: Or(stopped.T, Not(r))}
 		n, _ := s.ghost["yields"].(IntV)
